@@ -23,7 +23,10 @@ RULE = ("a case is (ABI in x86-64 ELF/PE, IA32 PE, ARM64 ELF, MIPS32 ELF) x Cons
         "stack_adjustment == real displacement, aligned body SP with align_stack, ValueError/NotImplementedError exactly "
         "for unsatisfiable requests. Non-trivial = at least two of the constraint features are on; distinct by spec hash.")
 ASSUMPTIONS = [
-    "the set of caller-saved registers is the ABI object's own table (configuration, not judged)",
+    "caller-saved registers: at least the volatile integer registers of the platform ABI documents (System V x86-64: rax rcx "
+    "rdx rsi rdi r8-r11; Microsoft x64: rax rcx rdx r8-r11; IA32 cdecl/stdcall: eax ecx edx; AAPCS64: x0-x15 and lr - x16-x18 "
+    "are platform registers the library documents it never touches; MIPS o32: v0-v1 a0-a3 t0-t9), plus whatever else the ABI "
+    "object's own table lists",
     "the emulator implements exactly the instruction forms the ABIs emit; anything else is a harness error",
     "flags are not required to survive when not declared clobbered",
     "ARM64 requires a 16-byte aligned SP on entry (hardware rule for SP-based addressing)",
@@ -52,6 +55,15 @@ for _r, _alts in (("eax", ["ax", "al", "ah"]), ("ebx", ["bx", "bl"]), ("ecx", ["
 RED_ZONE = {("x64", "elf"): 128}
 CC_ALIGN = {("x64", "elf"): 16, ("x64", "pe"): 16, ("ia32", "pe"): 4, ("arm64", "elf"): 16, ("mips32", "elf"): 8}
 SP_RESIDUES = {"x64": [0, 8, 0, 8, 4, 1, 12], "ia32": [0, 4, 8, 12], "arm64": [0], "mips32": [0, 8]}
+
+
+VOLATILE = {
+    ("x64", "elf"): ["rax", "rcx", "rdx", "rsi", "rdi", "r8", "r9", "r10", "r11"],
+    ("x64", "pe"): ["rax", "rcx", "rdx", "r8", "r9", "r10", "r11"],
+    ("ia32", "pe"): ["eax", "ecx", "edx"],
+    ("arm64", "elf"): [f"x{i}" for i in range(16)] + ["x30"],
+    ("mips32", "elf"): ["v0", "v1", "a0", "a1", "a2", "a3"] + [f"t{i}" for i in range(10)],
+}
 
 
 def calibrate():
@@ -217,7 +229,9 @@ def evaluate(spec):
     if align and sp_body % CC_ALIGN[(isa, fmt)]:
         out.fail("C16.align", "body-runs-with-misaligned-stack", f"sp {hex(sp_body)} (entry {hex(sp0)})")
     # havoc
-    lib_caller_saved = {canon(r) for r in abi.caller_saved_registers()} if pcs else set()
+    # the platform ABI's volatile integer registers (reference minimum, typed
+    # in from the ABI documents) united with the library's own table
+    lib_caller_saved = ({canon(r) for r in abi.caller_saved_registers()} | set(VOLATILE[(isa, fmt)])) if pcs else set()
     havoc = set(clob_set) | set(scratch) | lib_caller_saved
     for r in havoc:
         mach.regs[r] = ("havoc", r)
